@@ -153,11 +153,16 @@ func (t *PortTLV) Write(b []byte) (n int, err error) {
 		return
 	}
 	n += 1
-	t.Data = make([]uint8, t.Length)
+	// the TLV length counts the subtype byte
+	if t.Length < 1 {
+		err = errors.New("The TLV is too short to hold an id subtype.")
+		return
+	}
+	t.Data = make([]uint8, t.Length-1)
 	if err = binary.Read(buf, binary.BigEndian, &t.Data); err != nil {
 		return
 	}
-	n += int(t.Length)
+	n += int(t.Length) - 1
 	return
 }
 
